@@ -5,3 +5,5 @@ import OxyModel.Props.C14
 #print axioms C14.C14_within_capacity_no_eviction
 #print axioms C14.C14_evict_min_only
 #print axioms C14.C14_conn_noninterference
+#print axioms C14.C14_evict_others_unchanged_rates
+#print axioms C14.C14_rate_noninterference_rates
